@@ -128,6 +128,7 @@ class Registry:
         self.inline_ctor: set[str] = set()
         self.flags: dict[str, bool] = {}
         self.obj_invariants: dict[str, str] = {}
+        self.struct_facts: dict[str, str] = {}
         self.interference: dict[tuple, dict] = {}     # switches for known-finding exclusions (see driver)
         self.kind_hints: dict = {}
 
@@ -194,6 +195,12 @@ class Registry:
         """A class invariant (established by __init__, preserved by every method that writes the fields - both proved -
         and no other writers): assumed for every object of the class read from the heap or received as an argument."""
         self.obj_invariants[cls] = expr
+
+    def struct_fact(self, cls, expr):
+        """A structural fact about the objects of a class that no method can break (e.g. two container attributes that
+        are assigned once, in __init__, to new containers are distinct objects): assumed for every object of the class,
+        also inside the class' own methods (not inside __init__).  Must be backed by a ground (AST) obligation."""
+        self.struct_facts[cls] = expr
 
     def global_value(self, name, kind):
         """A module-level object of the package modelled as an (arbitrary, pre-existing) value of `kind`."""
